@@ -438,7 +438,7 @@ pub const ALL_ROWS: &[&str] = &[
 
 /// Hosts for the catalogue: valid packets under a spelling that spells reason codes out.
 pub fn host_frame(r: &mut Rng, fam: Fam, rp: &RP) -> Frame {
-    let sp = Spelling { prop_shuffle: if r.bool() { r.next() | 1 } else { 0 }, long_form: r.below(3) as u8, remlen_width: 0 };
+    let sp = Spelling { prop_shuffle: if r.bool() { r.next() | 1 } else { 0 }, long_form: r.below(3) as u8, remlen_width: 0, proplen_width: 0 };
     ref_encode(fam, rp, &sp)
 }
 
